@@ -387,6 +387,11 @@ class Gen:
                 out.append(k)
         return out
 
+    def disputed(self, name, variant):
+        """this format publishes other addresses for the register than the JSON listing does"""
+        wm = self.v.wordmaps[name]
+        return "json" in wm and wm[variant] != wm["json"]
+
     def add(self, *a, **k):
         self.tests.append(Test(*a, **k))
 
@@ -438,7 +443,7 @@ class Gen:
                     kind = "order" if nw > 1 and sorted(vals) == sorted((val >> (self.v.busword * k)) & ((1 << self.v.busword) - 1) for k in range(nw)) else "addr"
                     fails.append((kind, f"{name}: holds {val:#x}, the published read sequence returns {back:#x}", dict(detail, read_words=[hex(x) for x in vals])))
             return fails
-        self.add(f"w{pi}:{variant}:{name}", name, script, check, variant=variant, disputed=len(self.variants(name)) > 1)
+        self.add(f"w{pi}:{variant}:{name}", name, script, check, variant=variant, disputed=self.disputed(name, variant))
 
     def status_test(self, name, r, nw, variant):
         b = self.b
@@ -477,7 +482,7 @@ class Gen:
                 kind = "order" if nw > 1 and sorted(vals) == sorted((g0 >> (bw * k)) & ((1 << bw) - 1) for k in range(nw)) else "addr"
                 fails.append((kind, f"{name}: status is {g0:#x}, the published read sequence returns {back:#x}", detail))
             return fails
-        self.add(f"s:{variant}:{name}", name, script, check, variant=variant, disputed=len(self.variants(name)) > 1)
+        self.add(f"s:{variant}:{name}", name, script, check, variant=variant, disputed=self.disputed(name, variant))
 
     # -- fields -------------------------------------------------------------------------------------------------
     def field_claims(self, name, r):
@@ -649,7 +654,7 @@ class Gen:
                                 fails.append(("csrmem", f"CSR memory {mname}: writing {val:#x} to element {e} at {addrs[0]:#x} changes {({str(k): tuple(map(hex, x)) for k, x in d.items()})}", det))
                         return fails
                     self.add(f"cm:{mname}[{e}]@{base:#x}", mname, rscript + wscript, check,
-                             variant=sorted(k for k, x in bases.items() if x == base)[0], disputed=len(set(bases.values())) > 1)
+                             variant=sorted(k for k, x in bases.items() if x == base)[0], disputed=base != bases.get("json", base))
 
     # -- bus memory regions --------------------------------------------------------------------------------------
     def busmem_tests(self):
